@@ -199,12 +199,10 @@ func (r *Receiver) SegmentHandlerFunc(w http.ResponseWriter, req *http.Request) 
 				t := int64(inTime)
 				if rsd.shouldBeShifted {
 					if masterTimeShift != 0 {
-						if masterTimescale != trd.timeScaleIn {
-							t = t * int64(masterTimescale) / int64(trd.timeScaleIn)
-						}
+						t = rescaleTime(t, masterTimescale, trd.timeScaleIn)
 						t += masterTimeShift
 						rsd.isShifted = true
-						t = t * int64(trd.timeScaleIn) / int64(masterTimescale)
+						t = rescaleTime(t, trd.timeScaleIn, masterTimescale)
 					}
 					segDur := int64(masterSegDur) * int64(trd.timeScaleIn) / int64(masterTimescale)
 					rsd.seqNr = uint32((t+segDur/2)/segDur) - uint32(ch.startNr)
